@@ -1,4 +1,5 @@
 import python_minifier.ast_compat as ast
+from python_minifier.ast_annotation import get_parent
 
 from python_minifier.rename.binding import NameBinding
 from python_minifier.rename.name_generator import name_filter
@@ -41,6 +42,25 @@ def sorted_bindings(module):
     return sorted(all_bindings(module), key=comp, reverse=True)
 
 
+def reference_site(node):
+    """
+    The node a reference is written at
+
+    The target of an assignment expression is bound in the namespace that encloses any comprehensions
+    it is inside of, but the name is still written inside those comprehensions.
+    """
+
+    try:
+        parent = get_parent(node)
+    except ValueError:
+        return node
+
+    if isinstance(parent, ast.NamedExpr) and parent.target is node:
+        return parent
+
+    return node
+
+
 def reservation_scope(namespace, binding):
     """
     Get the namespaces that are in the bindings reservation scope
@@ -58,6 +78,7 @@ def reservation_scope(namespace, binding):
     namespaces = {namespace}
 
     for node in binding.references:
+        node = reference_site(node)
         while node is not namespace:
             namespaces.add(node.namespace)
             node = node.namespace
